@@ -1,0 +1,61 @@
+//! Seeded yield points (feature `verif`): placed before lock / latch acquisitions and between the steps of commit,
+//! never inside a held coarse lock. Disarmed (the default) they cost one relaxed atomic load.
+use std::cell::Cell;
+use std::sync::atomic::{AtomicU64, Ordering};
+
+static SEED: AtomicU64 = AtomicU64::new(0);
+pub const SITES: usize = 8;
+static HITS: [AtomicU64; SITES] = [const { AtomicU64::new(0) }; SITES];
+static PERTURBED: AtomicU64 = AtomicU64::new(0);
+
+thread_local! {
+    static RNG: Cell<u64> = const { Cell::new(0) };
+}
+
+/// Arm with a non-zero seed; 0 disarms.
+pub fn arm(seed: u64) {
+    SEED.store(seed, Ordering::SeqCst);
+}
+
+pub fn hits() -> Vec<u64> {
+    HITS.iter().map(|h| h.load(Ordering::Relaxed)).collect()
+}
+
+pub fn perturbations() -> u64 {
+    PERTURBED.load(Ordering::Relaxed)
+}
+
+#[inline]
+pub fn yield_point(site: usize) {
+    let seed = SEED.load(Ordering::Relaxed);
+    if seed == 0 {
+        return;
+    }
+    HITS[site % SITES].fetch_add(1, Ordering::Relaxed);
+    let x = RNG.with(|c| {
+        let mut x = c.get();
+        if x == 0 {
+            // per-thread stream derived from the seed and the thread id
+            let tid = std::thread::current().id();
+            let mut h = std::collections::hash_map::DefaultHasher::new();
+            std::hash::Hash::hash(&tid, &mut h);
+            x = seed ^ std::hash::Hasher::finish(&h) | 1;
+        }
+        x ^= x << 13;
+        x ^= x >> 7;
+        x ^= x << 17;
+        c.set(x);
+        x
+    });
+    match x % 16 {
+        0..=3 => {
+            PERTURBED.fetch_add(1, Ordering::Relaxed);
+            std::thread::yield_now();
+        }
+        4 => {
+            PERTURBED.fetch_add(1, Ordering::Relaxed);
+            std::thread::sleep(std::time::Duration::from_micros(20 + (x >> 8) % 180));
+        }
+        _ => {}
+    }
+}
